@@ -6,7 +6,7 @@ import ast
 from ..model import AnalysisError
 from ..symeval import ts, subterms, subst, is_const, C, NONE
 from ..linform import fmt_lf
-from .util import (CORE, N, call, mk_ev, mk_lin, summarize, spine_cases, all_cases, none_test, items, is_call, mentions, func_loc, short)
+from .util import (CORE, N, call, mk_ev, mk_lin, summarize, spine_cases, all_cases, none_test, items, is_call, mentions, func_loc, short, apply_fn)
 from .gfi import Checker, is_where
 from .pjaxr import fnode, unp
 
@@ -188,11 +188,11 @@ def flip_enum_rule(ctx, rule="ALG-flip-enum"):
             f, prim, tan = J[2]
             ck.eq("jvp primals = (p, f(True), f(False)) from the dual continuation", prim, lin.norm(("tuple", (p, pr(tD), pr(fD)))))
             ck.eq("jvp tangents = (ṗ, ḟ(True), ḟ(False))", tan, lin.norm(("tuple", (pt, tg(tD), tg(fD)))))
-            if f[0] != "closure":
-                ck.fail("mixing function is local", f"found {short(f, ev)}")
+            A, B, Cc = ("param", "p_"), ("param", "t_"), ("param", "f_")
+            body = apply_fn(ev, f, (A, B, Cc))
+            if body is None:
+                ck.fail("mixing function is a function the analyser can apply (closure, partial, module-level function)", f"found {short(f, ev)}")
             else:
-                A, B, Cc = ("param", "p_"), ("param", "t_"), ("param", "f_")
-                body = ev.apply_closure(f, (A, B, Cc), ())
                 ck.lineq("mix(p, t, f) = p·t + (1 − p)·f", body, ("binop", "+", ("binop", "*", A, B), ("binop", "*", ("binop", "-", C(1), A), Cc)))
         else:
             ck.eq("batched: lane-wise Rao-Blackwellised estimator", leaf, lin.norm(call(N(AD + "_flip_lane_rb_estimate"), KP, KD, p, pt)))
@@ -314,12 +314,12 @@ def reparam_rule(ctx, rule="ALG-reparam"):
             ck.eq("jvp primals = the site's parameters in order", prim, ("tuple", (p0, p1)))
         if tan != TAN:
             ck.eq("jvp tangents = the parameters' tangents in the same order", tan, ("tuple", (("idx", TAN, C(0)), ("idx", TAN, C(1)))))
-        if f[0] != "closure":
-            ck.fail("transform is local", f"found {short(f, ev)}")
+        A, B = ("param", "a_"), ("param", "b_")
+        body = apply_fn(ev, f, (A, B))
+        if body is None:
+            ck.fail("transform is a function the analyser can apply (closure, partial, module-level function)", f"found {short(f, ev)}")
             ck.done()
             continue
-        A, B = ("param", "a_"), ("param", "b_")
-        body = ev.apply_closure(f, (A, B), ())
         eps = [x for x in set(subterms(body)) if is_call(x, name=DIST + noise + ".sample")]
         if len(eps) != 1:
             ck.fail(f"noise = one {noise}.sample draw closed over by the transform", f"{len(eps)} draws")
